@@ -8,8 +8,9 @@ Events are the simcalls of s4u_Mutex.cpp on the path of normal runs: `lock` (= l
   enq        = issuers whose acquisition entered ongoing_acquisitions_, in request order
   handoffs   = issuers that received the mutex from an unlock, in order
 A history is rejected (`illFormed`) when an actor that is blocked in `lock` issues an event (no S4U program can do
-that) or when the owner of a non-recursive mutex locks it again (undefined behaviour in POSIX; the model and the
-correspondence do cover what the code does then, the theorems do not).  No Mathlib.
+that) or when the owner of a non-recursive mutex locks it again (undefined behaviour in POSIX; since the repair of
+`mutex-relock-by-owner-returns` the owner then blocks for ever on its own mutex: `relock_blocks` in Props.lean; the
+model and the correspondence cover it, the history-level theorems keep it out of their domain).  No Mathlib.
 -/
 import SgVerif.Sync.Model
 namespace SgVerif.C04
@@ -39,7 +40,7 @@ def step (s : St) : MEv → Except Err (St × Outs)
     else if s.m.recursive = false ∧ s.m.owner = some a then .error .illFormed
     else
       let (m1, g) := s.m.lockAsync a
-      let (m2, r) := m1.waitFor a .unit
+      let (m2, r) := m1.waitFor a .unit g
       .ok ({ s with m := m2,
                     held := if r.isSome then upd s.held a (s.held a + 1) else s.held,
                     enq := if g then s.enq else s.enq ++ [a] }, optOut a r)
